@@ -136,7 +136,16 @@ def issue(idp, identity, in_response_to="id-req-1", destination=ACS_POST, sp_eid
 def deliver(sp, xml, outstanding=None, binding=BINDING_HTTP_POST, **kw):
     """Returns (accepted_response_or_None, exception_or_None)."""
     try:
-        r = sp.parse_authn_request_response(b64(xml), binding, outstanding, **kw)
+        if binding == BINDING_SOAP:
+            body = xml[xml.index("?>") + 2:] if xml.startswith("<?xml") else xml
+            wire = '<ns0:Envelope xmlns:ns0="http://schemas.xmlsoap.org/soap/envelope/"><ns0:Body>%s</ns0:Body></ns0:Envelope>' % body
+        elif binding == BINDING_HTTP_REDIRECT:
+            import base64 as _b64
+            import zlib as _zlib
+            wire = _b64.b64encode(_zlib.compress(xml.encode("utf-8"))[2:-4]).decode("ascii")
+        else:
+            wire = b64(xml)
+        r = sp.parse_authn_request_response(wire, binding, outstanding, **kw)
         return r, None
     except Exception as exc:  # the class is the observation
         return None, exc
